@@ -9,8 +9,10 @@
 (* adopted, and validation continues.  Tags starting with DIV are divergences (never a verdict).  *)
 EXTENDS SeqBnB, DDContract, DominanceStore, Gap, Json, IOUtils
 Rec == ndJsonDeserialize(IOEnv.TRACE)
-VARIABLES l, I, HT, cfg, S, cur, compiledCur, inp, res, baseRet, prevRet, primalMax, held, skipOK, store, devs
-vars == <<l, I, HT, cfg, S, cur, compiledCur, inp, res, baseRet, prevRet, primalMax, held, skipOK, store, devs>>
+VARIABLES l, I, HT, cfg, S, cur, compiledCur, inp, res, baseRet, prevRet, primalMax, held, skipOK, store, devs,
+          ever,      \* <<depth, q>> -> largest value with which that sub-problem was ever put on the fringe in this run
+          pendW      \* thresholds written since the last pop, judged at the next one (C09 unsound-threshold)
+vars == <<l, I, HT, cfg, S, cur, compiledCur, inp, res, baseRet, prevRet, primalMax, held, skipOK, store, devs, ever, pendW>>
 None == <<>>
 Add(d, tags) == IF Cardinality(d) < 60 THEN d \cup {<<t, l, cfg.run, "-">> : t \in tags} ELSE d
 SP(n) == [st |-> n.st, depth |-> n.depth, value |-> n.value, ub |-> n.ub, path |-> n.path]
@@ -21,7 +23,7 @@ Cfg0 == [run |-> 0, cache |-> FALSE, dom |-> FALSE, fringe |-> "simple", level |
          dd |-> "lel", width |-> 1, cut_at |-> 0, nprimal |-> 0, inst_id |-> -1]
 
 Init == /\ l = 1 /\ I = None /\ HT = None /\ cfg = Cfg0 /\ S = EmptyS /\ cur = None /\ compiledCur = FALSE
-        /\ inp = None /\ res = None /\ baseRet = None /\ prevRet = None /\ primalMax = NegInf /\ held = None /\ skipOK = FALSE /\ store = <<>> /\ devs = {}
+        /\ inp = None /\ res = None /\ baseRet = None /\ prevRet = None /\ primalMax = NegInf /\ held = None /\ skipOK = FALSE /\ store = <<>> /\ devs = {} /\ ever = <<>> /\ pendW = {}
 Ev(e) == l <= Len(Rec) /\ Rec[l].ev = e /\ l' = l + 1
 
 TReset ==
@@ -31,7 +33,7 @@ TReset ==
      /\ HT' = (IF e.inst = I THEN HT ELSE HTable(e.inst))
      /\ cfg' = [run |-> e.run, cache |-> e.cache, dom |-> e.dom, fringe |-> e.fringe, level |-> e.level, role |-> e.role, series |-> e.series,
                 last |-> e.last, dd |-> e.dd, width |-> e.width, cut_at |-> e.cut_at, nprimal |-> e.nprimal, inst_id |-> e.inst_id]
-     /\ S' = EmptyS /\ cur' = None /\ compiledCur' = FALSE /\ inp' = None /\ res' = None /\ primalMax' = NegInf /\ held' = None /\ skipOK' = FALSE /\ store' = <<>>
+     /\ S' = EmptyS /\ cur' = None /\ compiledCur' = FALSE /\ inp' = None /\ res' = None /\ primalMax' = NegInf /\ held' = None /\ skipOK' = FALSE /\ store' = <<>> /\ ever' = <<>> /\ pendW' = {}
      /\ baseRet' = (IF e.role = "base" THEN None ELSE baseRet)
      /\ prevRet' = (IF e.role = "cut" /\ e.series = cfg.series THEN prevRet ELSE None)
      /\ devs' = (IF e.inst = I \/ WellFormed(I', HT') THEN devs ELSE Add(devs, {"HARNESS ill-formed-instance"}))
@@ -46,11 +48,24 @@ TPrimal ==
      /\ devs' = Add(devs, Tag(e.lb_after # S2.bestLb \/ e.val_after # S2.bestLb, "C14 set-primal-value")
                           \* replaced only when strictly greater: on an equal (or smaller) value the earlier solution stays
                           \cup Tag(e.sol_after.decs # held', "C14 set-primal-solution"))
-  /\ UNCHANGED <<I, HT, cfg, cur, compiledCur, inp, res, baseRet, prevRet, skipOK, store>>
+  /\ UNCHANGED <<I, HT, cfg, cur, compiledCur, inp, res, baseRet, prevRet, skipOK, store, ever, pendW>>
 
 \* ------------------------------------------------------------------ fringe (C11 in situ) and the solver's use of it
 LenTags(its) == Tag(FLen(its) # Rec[l].len, "C11 len")
-TCInit == Ev("cinit") /\ UNCHANGED <<I, HT, cfg, S, cur, compiledCur, inp, res, baseRet, prevRet, primalMax, held, skipOK, store, devs>>
+\* ---- C09, threshold soundness.  A threshold (d, q) -> theta recorded by a compilation (or at a pop) claims that reaching q at depth d
+\* with a value <= theta (< theta when the entry is not marked explored) is useless.  That is the case iff every completion of q from
+\* such a value is worth no more than the incumbent, or runs through a sub-problem that was put on the fringe with at least the value
+\* this completion reaches it with (that node, or what replaced it, covers the completion).  Judged at the next pop, when the cut-set of
+\* the diagram that wrote the threshold has been enqueued.  Static variable order, no long arcs, no dominance checker.
+Monitored == cfg.cache /\ ~cfg.dom /\ Full /\ cfg.cut_at = 0 /\ StaticOrder(I) /\ ~I.long_arcs
+RECURSIVE Useless(_, _, _, _)
+Useless(d, q, a, lb) ==
+  IF Plus(a, HStar(I, HT, d, q)) <= lb THEN TRUE
+  ELSE IF <<d, q>> \in DOMAIN ever /\ a <= ever[<<d, q>>] THEN TRUE
+  ELSE IF d >= I.n THEN FALSE
+  ELSE \A x \in DomQ(I, d, q) : Useless(d + 1, TrQ(I, d, q, x), Plus(a, CoQ(I, d, q, x)), lb)
+ThresholdTags(lb) == Tag(Monitored /\ \E w \in pendW : ~Useless(w.d, w.q, IF w.e THEN w.v ELSE w.v - 1, lb), "C09 unsound-threshold")
+TCInit == Ev("cinit") /\ UNCHANGED <<I, HT, cfg, S, cur, compiledCur, inp, res, baseRet, prevRet, primalMax, held, skipOK, store, devs, ever, pendW>>
 TPush ==
   /\ Ev("push")
   /\ LET sp == SP(Rec[l].node)
@@ -58,7 +73,9 @@ TPush ==
          grow == FLen(f2) - FLen(S.fringe) IN
      /\ S' = [S EXCEPT !.fringe = f2, !.open = IF sp.depth \in DOMAIN S.open THEN [S.open EXCEPT ![sp.depth] = @ + grow] ELSE [d \in 0..I.n |-> IF d = sp.depth THEN 1 ELSE 0]]
      /\ devs' = Add(devs, LenTags(f2))
-  /\ UNCHANGED <<I, HT, cfg, cur, compiledCur, inp, res, baseRet, prevRet, primalMax, held, skipOK, store>>
+     /\ ever' = (LET k == <<sp.depth, Q(I, sp.st)>> IN
+                 [j \in (DOMAIN ever) \cup {k} |-> IF j = k THEN (IF k \in DOMAIN ever THEN Max2(ever[k], sp.value) ELSE sp.value) ELSE ever[j]])
+  /\ UNCHANGED <<I, HT, cfg, cur, compiledCur, inp, res, baseRet, prevRet, primalMax, held, skipOK, store, pendW>>
 \* C09: some optimal solution is still reachable through an open node that neither its bound nor the cache discards
 Live(n, lb, table) == SpOpt(I, HT, n) = Opt(I, HT) /\ n.ub > lb /\ (~cfg.cache \/ MustExplore(table, n))
 RouteTags(S1, popped) ==
@@ -80,14 +97,16 @@ TPop ==
      /\ devs' = Add(devs, LenTags(S2.fringe) \cup SkipTags
                           \cup Tag(cands = {}, IF \E y \in BagToSet(S1.fringe) : Matches(sp, y) THEN "C11 pop-not-max"
                                                ELSE IF same # {} THEN "C11 pop-altered-item" ELSE "C11 pop-invented")
-                          \cup RouteTags(S2, sp))
-  /\ UNCHANGED <<I, HT, cfg, inp, res, baseRet, prevRet, primalMax, held, store>>
-TPopNone == Ev("pop_none") /\ devs' = Add(devs, Tag(S.fringe # EmptyBag, "C11 lost-items")) /\ UNCHANGED <<I, HT, cfg, S, cur, compiledCur, inp, res, baseRet, prevRet, primalMax, held, skipOK, store>>
+                          \cup RouteTags(S2, sp) \cup ThresholdTags(S.bestLb))
+  /\ pendW' = {}
+  /\ UNCHANGED <<I, HT, cfg, inp, res, baseRet, prevRet, primalMax, held, store, ever>>
+TPopNone == Ev("pop_none") /\ devs' = Add(devs, Tag(S.fringe # EmptyBag, "C11 lost-items") \cup ThresholdTags(S.bestLb)) /\ pendW' = {}
+            /\ UNCHANGED <<I, HT, cfg, S, cur, compiledCur, inp, res, baseRet, prevRet, primalMax, held, skipOK, store, ever>>
 \* emptying the fringe while it holds a node whose bound exceeds the incumbent (and no cutoff is involved) throws away a part of the
 \* search space that may hold the optimum
 TFClear == /\ Ev("fclear") /\ S' = [S EXCEPT !.fringe = EmptyBag]
            /\ devs' = Add(devs, Tag(cfg.cut_at = 0 /\ \E x \in BagToSet(S.fringe) : x.ub > S.bestLb, IF I.long_arcs THEN "C15 open-nodes-discarded" ELSE "C01 open-nodes-discarded"))
-           /\ UNCHANGED <<I, HT, cfg, cur, compiledCur, inp, res, baseRet, prevRet, primalMax, held, skipOK, store>>
+           /\ UNCHANGED <<I, HT, cfg, cur, compiledCur, inp, res, baseRet, prevRet, primalMax, held, skipOK, store, ever, pendW>>
 
 \* ------------------------------------------------------------------ cache (C18 in situ); an EmptyCache run ignores updates
 TCGet ==
@@ -97,14 +116,16 @@ TCGet ==
      /\ S' = (IF got = exp \/ ~cfg.cache THEN S
               ELSE IF got = NoTh THEN [S EXCEPT !.table = [k \in (DOMAIN S.table) \ {<<e.depth, e.st>>} |-> S.table[k]]]
               ELSE [S EXCEPT !.table = [k \in (DOMAIN S.table) \cup {<<e.depth, e.st>>} |-> IF k = <<e.depth, e.st>> THEN got ELSE S.table[k]]])
-  /\ UNCHANGED <<I, HT, cfg, cur, compiledCur, inp, res, baseRet, prevRet, primalMax, held, skipOK, store>>
+  /\ UNCHANGED <<I, HT, cfg, cur, compiledCur, inp, res, baseRet, prevRet, primalMax, held, skipOK, store, ever, pendW>>
 TCUpd == /\ Ev("cupd")
-         /\ LET e == Rec[l] IN S' = (IF cfg.cache THEN [S EXCEPT !.table = CUpd(S.table, e.depth, e.st, <<e.value, e.explored>>)] ELSE S)
-         /\ UNCHANGED <<I, HT, cfg, cur, compiledCur, inp, res, baseRet, prevRet, primalMax, held, skipOK, store, devs>>
+         /\ LET e == Rec[l] IN
+              /\ S' = (IF cfg.cache THEN [S EXCEPT !.table = CUpd(S.table, e.depth, e.st, <<e.value, e.explored>>)] ELSE S)
+              /\ pendW' = (IF Monitored THEN pendW \cup {[d |-> e.depth, q |-> Q(I, e.st), v |-> e.value, e |-> e.explored]} ELSE pendW)
+         /\ UNCHANGED <<I, HT, cfg, cur, compiledCur, inp, res, baseRet, prevRet, primalMax, held, skipOK, store, devs, ever>>
 TCClearLayer == /\ Ev("cclear_layer") /\ S' = [S EXCEPT !.table = CClearLayer(S.table, Rec[l].depth)]
-                /\ UNCHANGED <<I, HT, cfg, cur, compiledCur, inp, res, baseRet, prevRet, primalMax, held, skipOK, store, devs>>
+                /\ UNCHANGED <<I, HT, cfg, cur, compiledCur, inp, res, baseRet, prevRet, primalMax, held, skipOK, store, devs, ever, pendW>>
 TCClear == /\ Ev("cclear") /\ S' = [S EXCEPT !.table = CEmpty]
-           /\ UNCHANGED <<I, HT, cfg, cur, compiledCur, inp, res, baseRet, prevRet, primalMax, held, skipOK, store, devs>>
+           /\ UNCHANGED <<I, HT, cfg, cur, compiledCur, inp, res, baseRet, prevRet, primalMax, held, skipOK, store, devs, ever, pendW>>
 \* dominance store (C10 in situ): every query of the run against DominanceStore.tla with the model's rule
 TDQuery ==
   /\ Ev("dquery")
@@ -113,9 +134,9 @@ TDQuery ==
          exp == IsDominated(front, c, e.value, TRUE) IN
      /\ devs' = Add(devs, Tag(e.dominated # exp, "C10 verdict") \cup Tag(e.dominated /\ exp /\ ~ThresholdSound(front, c, e.value, e.threshold, TRUE), "C10 threshold"))
      /\ store' = (IF e.dominated THEN store ELSE DSet(store, e.depth, k, DInsert(front, c, e.value, TRUE)))
-  /\ UNCHANGED <<I, HT, cfg, S, cur, compiledCur, inp, res, baseRet, prevRet, primalMax, held, skipOK>>
+  /\ UNCHANGED <<I, HT, cfg, S, cur, compiledCur, inp, res, baseRet, prevRet, primalMax, held, skipOK, ever, pendW>>
 TDom == /\ (Ev("dclear_layer") \/ Ev("poll"))
-        /\ UNCHANGED <<I, HT, cfg, S, cur, compiledCur, inp, res, baseRet, prevRet, primalMax, held, skipOK, store, devs>>
+        /\ UNCHANGED <<I, HT, cfg, S, cur, compiledCur, inp, res, baseRet, prevRet, primalMax, held, skipOK, store, devs, ever, pendW>>
 
 \* ------------------------------------------------------------------ compilations
 TCompile ==
@@ -125,7 +146,7 @@ TCompile ==
      /\ devs' = Add(devs, Tag(cur = None \/ i.root # cur, "DIV compiled-node-is-not-the-popped-one")
                           \cup Tag(e.best_lb # S.bestLb, "DIV incumbent-handed-to-compilation")
                           \cup Tag(cur # None /\ skipOK /\ e.type = "restricted", "DIV node-should-have-been-skipped"))
-  /\ UNCHANGED <<I, HT, cfg, S, cur, baseRet, prevRet, primalMax, held, skipOK, store>>
+  /\ UNCHANGED <<I, HT, cfg, S, cur, baseRet, prevRet, primalMax, held, skipOK, store, ever, pendW>>
 TCompiled ==
   /\ Ev("compiled")
   /\ LET e == Rec[l]
@@ -135,13 +156,13 @@ TCompiled ==
      /\ devs' = Add(devs, (IF Isolated THEN CompileTags(I, HT, inp, r)
                            \* with shared stores only the primal side is unconditional: what is offered as incumbent must be feasible
                            ELSE IF e.ok THEN Tag(e.besol.some /\ ~FeasibleSolution(I, e.besol.decs, e.bev), "C02 incumbent-candidate-infeasible") ELSE {}))
-  /\ UNCHANGED <<I, HT, cfg, cur, compiledCur, inp, baseRet, prevRet, primalMax, held, skipOK, store>>
+  /\ UNCHANGED <<I, HT, cfg, cur, compiledCur, inp, baseRet, prevRet, primalMax, held, skipOK, store, ever, pendW>>
 TCutset ==
   /\ Ev("cutset")
   /\ LET cs == {SP(Rec[l].nodes[i]) : i \in DOMAIN Rec[l].nodes} IN
      devs' = Add(devs, (IF Isolated /\ ~(I.long_arcs /\ cfg.dd = "pooled") /\ I.n <= 6 THEN CutsetTags(I, HT, inp, res, cs) ELSE {})
                        \cup Tag(\E c \in cs : ~ExactSubProblem(I, c), "C08 node-not-exact"))
-  /\ UNCHANGED <<I, HT, cfg, S, cur, compiledCur, inp, res, baseRet, prevRet, primalMax, held, skipOK, store>>
+  /\ UNCHANGED <<I, HT, cfg, S, cur, compiledCur, inp, res, baseRet, prevRet, primalMax, held, skipOK, store, ever, pendW>>
 
 \* ------------------------------------------------------------------ outcome
 Sig(r) == IF cfg.dd = "pooled" /\ I.long_arcs /\ (r.root_in_cutset \/ r.watchdog) THEN "D5" ELSE "-"
@@ -188,10 +209,11 @@ TReturn ==
          endTags == IF Full /\ ~r.panicked /\ cfg.cut_at = 0
                     THEN Tag(S.fringe # EmptyBag, "DIV returned-with-open-nodes") \cup SkipTags \cup Tag(S.bestLb # r.best_lb, "DIV incumbent-differs-from-trace")
                     ELSE {} IN
-     /\ devs' = (IF Cardinality(devs) < 60 THEN devs \cup {<<t, l, cfg.run, Sig(r)>> : t \in RetTags(r) \cup endTags} ELSE devs)
+     /\ devs' = (IF Cardinality(devs) < 60 THEN devs \cup {<<t, l, cfg.run, Sig(r)>> : t \in RetTags(r) \cup endTags \cup (IF r.panicked THEN {} ELSE ThresholdTags(S.bestLb))} ELSE devs)
      /\ baseRet' = (IF cfg.role = "base" THEN [val |-> val, is_exact |-> r.is_exact] ELSE baseRet)
      /\ prevRet' = (IF cfg.role = "cut" THEN [best_lb |-> r.best_lb, best_ub |-> r.best_ub] ELSE None)
-  /\ UNCHANGED <<I, HT, cfg, S, cur, compiledCur, inp, res, primalMax, held, skipOK, store>>
+  /\ pendW' = {}
+  /\ UNCHANGED <<I, HT, cfg, S, cur, compiledCur, inp, res, primalMax, held, skipOK, store, ever>>
 
 Next == TReset \/ TPrimal \/ TCInit \/ TPush \/ TPop \/ TPopNone \/ TFClear \/ TCGet \/ TCUpd \/ TCClearLayer \/ TCClear \/ TDom \/ TDQuery
         \/ TCompile \/ TCompiled \/ TCutset \/ TReturn
